@@ -104,6 +104,14 @@ func runC10(cases string, res *Result) {
 					return
 				}
 			}
+			if i == 0 {
+				res.Hist["by-other-routes"]++
+				if msg := evalByOtherRoutes(c, parseContext(c.str("ctx")), nil, out, class); msg != "" {
+					add(Finding{Kind: "oracle", Where: where + "/routes", Case: c, Expected: observed, Observed: msg,
+						Detail: "the way the templates of the chain reached the engine changes what the chain renders"})
+					return
+				}
+			}
 			if okO && oracle != observed {
 				add(Finding{Kind: "oracle", Where: where, Case: c, Expected: oracle, Observed: observed,
 					Detail: "the engine's output is not the substitution along the extends chain (specification says " + spec + ", model " + model + ") " + det})
